@@ -98,6 +98,14 @@ type fInlineStruct struct {
 	Rem  *fAliases `yaml:",inline"`
 }
 
+// alias lists with an empty ENTRY next to real ones (`id,` / `name,,title`): the empty entry names no key — the key ""
+// stays an ordinary unknown key — and the inline map makes the accounting observable
+type fAliasEmptyEntry struct {
+	Key   string         `yaml:"key" aliases:"id,"`
+	Label string         `yaml:"label" aliases:"name,,title"`
+	Rest  map[string]any `yaml:",inline"`
+}
+
 type fAliasNoInline struct {
 	X string `yaml:"x" aliases:"y,,z"`
 	W int    `yaml:"w" aliases:"v"`
@@ -136,6 +144,7 @@ var c16Family = []famEntry{
 	{"inlinestruct", func() any { return &fInlineStruct{} }, func() any {
 		return &fInlineStruct{Cmds: []string{"c0"}, Rem: &fAliases{Key: "K", Rest: map[string]any{"r": 1}}}
 	}, false},
+	{"aliasemptyentry", func() any { return &fAliasEmptyEntry{} }, func() any { return &fAliasEmptyEntry{Key: "K", Label: "L"} }, false},
 	{"aliasnoinline", func() any { return &fAliasNoInline{} }, func() any { return &fAliasNoInline{X: "x", W: 1} }, false},
 	{"omapcomposite", func() any { return &fOMapComposite{} }, func() any { return &fOMapComposite{} }, false},
 	// two distinct struct types that print the same (function-local types called `step`) with different tags:
@@ -733,7 +742,7 @@ func runC16(c *ctx) error {
 			}
 		}
 		// oracle: partition — every input key is consumed by exactly one place (inline-map targets make it observable)
-		if err == nil && (fam.name == "aliases" || fam.name == "inlinemap") && !pre {
+		if err == nil && (fam.name == "aliases" || fam.name == "inlinemap" || fam.name == "aliasemptyentry") && !pre {
 			c.res.OracleChecks++
 			c16PartitionOracle(c, fam.name, doc, dst)
 		}
@@ -870,6 +879,27 @@ func c16PartitionOracle(c *ctx, fam string, doc *ordered.MapSA, dst any) {
 		pickKey("key", "id", "identifier")
 		pickKey("label", "name")
 		pickKey("group", "title", "caption")
+	case *fAliasEmptyEntry:
+		rest = d.Rest
+		pickKey := func(keys ...string) string {
+			for _, k := range keys {
+				if doc.Contains(k) {
+					claimed[k] = true
+					return k
+				}
+			}
+			return ""
+		}
+		// (the empty entries of the alias lists name nothing)
+		kk := pickKey("key", "id")
+		lk := pickKey("label", "name", "title")
+		// ...and a field no key names stays as it was (zero here)
+		if kk == "" && d.Key != "" {
+			c.res.Fail(core.OracleFailure{What: "a field none of whose names is in the input was set", Input: desc, Got: d.Key})
+		}
+		if lk == "" && d.Label != "" {
+			c.res.Fail(core.OracleFailure{What: "a field none of whose names is in the input was set", Input: desc, Got: d.Label})
+		}
 	}
 	doc.Range(func(k string, v any) error {
 		_, inRest := rest[k]
